@@ -199,8 +199,16 @@ def worker(task):
         if extra_requires:
             c.requires = list(c.requires) + list(extra_requires)
         res = verify_function(db, c)
+        dig = [res.digest or ""]
+        for k in sorted(res.inlined):
+            try:
+                dig.append(source.source_digest(*k.split(":")))
+            except Exception:
+                dig.append("?")
+        import hashlib
+
         out.update(paths=res.paths, inlined=sorted(res.inlined), assumed=sorted(res.assumed), notes=sorted(res.notes),
-                   digest=res.digest, seconds=res.seconds)
+                   digest=hashlib.sha256("|".join(dig).encode()).hexdigest()[:16], seconds=res.seconds)
         if res.error:
             out["error"] = list(res.error)
             return out
@@ -383,10 +391,12 @@ def main(argv=None):
             # guards: canary mutants must be refuted
             canaries = meta.get("canaries", [])
             canary_results = []
-            tasks = [(cn["function"], "quick", budget, (cn["module"], cn["target"], cn["old"], cn["new"]), None) for cn in canaries]
+            tasks = [(cn["function"], "quick", min(budget, 6.0), (cn["module"], cn["target"], cn["old"], cn["new"]), None) for cn in canaries]
             for cn, out in zip(canaries, pool.map(worker, tasks)):
                 refuted = [o["name"] for o in out["obligations"] if o["status"] == "sat"]
-                canary_results.append({"canary": cn["name"], "refuted_obligations": refuted, "error": out["error"]})
+                not_proved = [o["name"] for o in out["obligations"] if o["status"] != "unsat"]
+                canary_results.append({"canary": cn["name"], "refuted_obligations": refuted, "not_discharged": not_proved,
+                                       "error": out["error"]})
     except Exception:
         traceback.print_exc()
         return 3
@@ -430,15 +440,39 @@ def main(argv=None):
             else:
                 undecided.append({"function": key, "obligation": o["name"], "reason": "solver: unknown/timeout", "clause": o["clause"][:160]})
 
+    # baseline: obligations discharged on the unchanged tree (committed).  An obligation that was
+    # discharged there, belongs to a function whose source changed, and is not dischargeable now is
+    # reported as a violation without a failing input.
+    bpath = VERIF / "baseline" / f"{prop}.json"
+    baseline = json.loads(bpath.read_text()) if bpath.exists() else {}
+    if "--record-baseline" in argv:
+        rec = {}
+        for key, out in sorted(results.items()):
+            rec[key] = {"digest": out["digest"],
+                        "discharged": {o["name"]: o["time"] for o in out["obligations"] if o["status"] == "unsat"}}
+        bpath.parent.mkdir(exist_ok=True)
+        bpath.write_text(json.dumps(rec, indent=1, sort_keys=True))
+    still_undecided = []
+    for u in undecided:
+        b = baseline.get(u["function"])
+        out = results.get(u["function"], {})
+        if (b and "obligation" in u and u["obligation"] in b["discharged"] and b["digest"] != out.get("digest")
+                and b["discharged"][u["obligation"]] < 0.25 * budget):
+            o = next(x for x in out["obligations"] if x["name"] == u["obligation"])
+            o["status"] = "no-longer-dischargeable"
+            refuted.append((u["function"], o))
+        else:
+            still_undecided.append(u)
+    undecided = still_undecided
     min_obl = meta.get("min_obligations", 1)
     guard_fail = []
     if total < min_obl and not undecided and not refuted:
         guard_fail.append(f"obligation count {total} < recorded minimum {min_obl}")
     for cr in canary_results:
-        if cr["error"] and cr["error"][0] != "crash" and not cr["refuted_obligations"]:
+        if cr["error"] and not cr["not_discharged"]:
             guard_fail.append(f"canary {cr['canary']} undecided: {cr['error']}")
-        elif not cr["refuted_obligations"]:
-            guard_fail.append(f"canary {cr['canary']} was NOT refuted")
+        elif not cr["not_discharged"]:
+            guard_fail.append(f"canary {cr['canary']} was VERIFIED (the checker accepts a broken function)")
 
     # known findings: replay witnesses
     lines = []
